@@ -105,6 +105,7 @@ func (server *Server) Start() error {
 	if err != nil {
 		return err
 	}
+	verifPoint("start.opened")
 
 	if server.IsPortEnabled() {
 		go server.serve()
@@ -122,6 +123,7 @@ func (server *Server) Stop() error {
 	if err := server.ConnManager.Stop(); err != nil {
 		return err
 	}
+	verifPoint("stop.mid")
 
 	if err := server.close(); err != nil {
 		return err
@@ -137,6 +139,7 @@ func (server *Server) Stop() error {
 		log.Infof("%s/%s (%s) terminated", PackageName, Version, addr)
 	}
 
+	verifPoint("stop.return")
 	return nil
 }
 
@@ -206,7 +209,9 @@ func (server *Server) close() error {
 
 // serve handles client connections.
 func (server *Server) serve() error {
+	defer verifPoint("serve.closed")
 	defer server.close()
+	verifPoint("serve.enter")
 
 	l := server.portListener
 	for {
@@ -215,6 +220,7 @@ func (server *Server) serve() error {
 		}
 		conn, err := l.Accept()
 		if err != nil {
+			verifPoint("serve.exit")
 			return err
 		}
 
@@ -226,7 +232,9 @@ func (server *Server) serve() error {
 
 // tlsServe handles client connections with TLS.
 func (server *Server) tlsServe() error {
+	defer verifPoint("tlsServe.closed")
 	defer server.close()
+	verifPoint("tlsServe.enter")
 	l := server.tlsPortListener
 	for {
 		if l == nil {
@@ -234,6 +242,7 @@ func (server *Server) tlsServe() error {
 		}
 		conn, err := l.Accept()
 		if err != nil {
+			verifPoint("tlsServe.exit")
 			return err
 		}
 
@@ -254,6 +263,7 @@ func (server *Server) receive(conn net.Conn, tlsState *tls.ConnectionState) erro
 	_, isPasswdRequired := server.ConfigRequirePass()
 
 	handlerConn := newConnWith(conn, tlsState)
+	defer verifPoint("conn.exit")
 	defer func() {
 		handlerConn.Close()
 	}()
@@ -271,8 +281,10 @@ func (server *Server) receive(conn net.Conn, tlsState *tls.ConnectionState) erro
 	}
 
 	server.AddConn(handlerConn)
+	verifPoint("conn.registered")
 	defer func() {
 		server.RemoveConn(handlerConn)
+		verifPoint("conn.deregistered")
 	}()
 
 	log.Debugf("%s/%s (%s) accepted", PackageName, Version, conn.RemoteAddr().String())
